@@ -1,5 +1,190 @@
-"""C19 — bounded stand-in for now (runtime contracts on the real code against an independent oracle); see DESIGN.md."""
-BOUNDED_ONLY = True
+"""C19 — DirectionalConvexHull: signed vertical distances to the lower hull (the part of the property that is code of this repository, not of Qhull).
+
+Real functions: _directional_distance, DirectionalConvexHull._directional_convex_hull_distance, score_samples (plumbing)
+(skmatter/sample_selection/_base.py), for every number of facets, points and hull dimensions.
+
+Proved: _directional_distance(E, P)[i, j] = (n_j . p_i + b_j) / n_j0, the vertical (target-direction) offset of point i from the plane of facet j
+(n_j = E[j, :-1], b_j = E[j, -1], n_j0 = E[j, 0] the target component of the normal);  _directional_convex_hull_distance(P)[i] is
+  * the MINIMUM over the stored lower facets of that offset when no offset is below -tolerance (point on or above the surface: for a convex lower hull the
+    surface is the upper envelope of its facet planes, so this is the vertical offset from the hull and it is >= -tolerance), and
+  * the MAXIMUM of the non-positive offsets when some offset is below -tolerance (point below the surface: a negative number, the offset from the closest facet
+    plane from below);
+  score_samples evaluates it on (y, X[:, low_dim_idx]) with the stored equations and returns one value per sample.
+NOT covered (Qhull / LinearNDInterpolator are external): that the stored equations are the lower facets of the hull of the training data, the vertex selection, the
+high-dimensional residuals: bounded runtime checks only."""
+from pyvc.api import *
+from pyvc import skstubs
+from pyvc.engine import ExtNS, ExtClass, Opaque
+import ast
+
+SB = 'skmatter.sample_selection._base'
+DCH = SB + '.DirectionalConvexHull'
+d_ = Int('d!s'); j_ = Int('j')
+SUMD = z3.Function('SUMD', z3.ArraySort(IntS, RealS), IntS, RealS)
+
+def cached_where(I, mask):
+    """the increasing enumeration of the true positions of a mask: ONE index map per mask (keyed by the mask's defining formula)"""
+    M = I.A(mask); p = z3.Int('p!key')
+    key = (z3.simplify(tz(M.shape[0])).sexpr(), z3.simplify(M.elem(p)).sexpr())
+    c = I.cur.setdefault('where_cache', {})
+    if key not in c: c[key] = npstubs.where_true(I, mask)
+    return c[key]
+
+def getitem(I, b, ix, node=None):
+    if isinstance(ix, ArrRef) and I.A(ix).sort == BoolS and I.A(ix).ndim == 1:
+        return I.cur['prev_getitem'](I, b, cached_where(I, ix), node)
+    A = I.A(b) if isinstance(b, ArrRef) else None
+    if A is not None and A.ndim == 2 and isinstance(ix, tuple) and len(ix) == 2 and isinstance(ix[0], slice) and ix[0] == slice(None) and isinstance(ix[1], slice) and ix[1].step is None:
+        # column blocks of a matrix known to have at least two columns: [:, -1:] (last column), [:, :1] (first column), [:, :-1] (all but the last)
+        st, sp = ix[1].start, ix[1].stop
+        nc = tz(A.shape[1])
+        if st is not None and sp is None and conc(st) == -1:
+            I.ob('index:last-column-exists', nc >= 1, kind='index')
+            return I.new_arr(ArrVal((A.shape[0], 1), lambda i, j: A.elem(tz(i), nc - 1), A.sort))
+        if st is None and sp is not None and conc(sp) == 1:
+            I.ob('index:first-column-exists', nc >= 1, kind='index')
+            return I.new_arr(ArrVal((A.shape[0], 1), lambda i, j: A.elem(tz(i), IntVal(0)), A.sort))
+        if st is None and sp is not None and conc(sp) == -1:
+            I.ob('index:last-column-exists', nc >= 1, kind='index')
+            return I.new_arr(ArrVal((A.shape[0], conc(z3.simplify(nc - 1))), lambda i, j: A.elem(tz(i), tz(j)), A.sort))
+    return I.cur['prev_getitem'](I, b, ix, node)
+
+def setitem(I, b, ix, v, node=None):
+    if isinstance(ix, ArrRef) and I.A(ix).sort == BoolS and I.A(ix).ndim == 1:
+        return I.cur['prev_setitem'](I, b, cached_where(I, ix), v, node)
+    if isinstance(ix, ArrRef) and I.A(ix).sort == BoolS and I.A(ix).ndim == 2 and not isinstance(v, ArrRef):
+        # A[mask2d] = scalar: element-wise
+        A = I.A(b); M = I.A(ix)
+        for x, y in zip(A.shape, M.shape):
+            if npstubs.same_dim(x, y) is not True: I.ob('shape:boolean mask store', tz(x) == tz(y), kind='shape')
+        val = tz(v) if not isinstance(v, float) or v == v and abs(v) != float('inf') else tz(v)
+        I.st.heap[b.id] = ArrVal(A.shape, lambda *jx: If(M.elem(*jx), npstubs.coerce(tz(v), A.sort), A.elem(*jx)), A.sort)
+        return
+    return I.cur['prev_setitem'](I, b, ix, v, node)
+
+def np_any(I, a, axis=None, **kw):
+    A = I.A(a)
+    if A.ndim == 2 and axis == 1:
+        npstubs.used('np.any(axis=1)')
+        n = tz(A.shape[1])
+        return I.new_arr(ArrVal((A.shape[0],), lambda i: Exists([j_], And(0 <= j_, j_ < n, A.elem(tz(i), j_))), BoolS))
+    return I.cur['prev_any'](I, a, axis=axis, **kw)
+
+def np_ext(kind):
+    def f(I, a, axis=None, **kw):
+        A = I.A(a)
+        if A.ndim == 2 and axis == 1:
+            npstubs.used(f'np.{kind}(axis=1) (row extremum with a witness column)')
+            n = tz(A.shape[1])
+            I.ob(f'pre:np.{kind}:non-empty-rows', n >= 1, kind='pre')
+            r = I.fresh_fn('row' + kind, IntS, RealS); w = I.fresh_fn('row' + kind + 'wit', IntS, IntS)
+            i = Int('i!ext')
+            cmp_ = (lambda x, y: x <= y) if kind == 'min' else (lambda x, y: x >= y)
+            I.assume(ForAll([i], Implies(And(0 <= i, i < tz(A.shape[0])), And(0 <= w(i), w(i) < n, r(i) == A.elem(i, w(i)))), patterns=[r(i)]))
+            I.assume(ForAll([i, j_], Implies(And(0 <= i, i < tz(A.shape[0]), 0 <= j_, j_ < n), cmp_(r(i), A.elem(i, j_))), patterns=[z3.MultiPattern(r(i), A.elem(i, j_))]))
+            return I.new_arr(ArrVal((A.shape[0],), lambda t: r(tz(t)), RealS))
+        return I.cur['prev_' + kind](I, a, axis=axis, **kw)
+    return f
+
+def matmul_hook(I, a, b, what):
+    if not (isinstance(I.cur, dict) and I.cur.get('c19')): return None
+    if not (isinstance(a, ArrRef) and isinstance(b, ArrRef)): return None
+    A, B = I.A(a), I.A(b)
+    if A.ndim == 2 and B.ndim == 2:
+        npstubs.used('@ (entry = sum over the contracted index)')
+        sd = npstubs.same_dim(A.shape[1], B.shape[0])
+        if sd is False: raise RaiseEx('ValueError')
+        if sd is None: I.ob(f'shape:{what}', tz(A.shape[1]) == tz(B.shape[0]), kind='shape')
+        D = tz(A.shape[1])
+        return I.new_arr(ArrVal((A.shape[0], B.shape[1]), lambda i, j: SUMD(z3.Lambda([d_], to_real(A.elem(tz(i), d_)) * to_real(B.elem(d_, tz(j)))), D), RealS))
+    return None
+
+def extend_ext(ext):
+    skstubs.install(ext)
+    if matmul_hook not in npstubs.MATMUL_HOOKS: npstubs.MATMUL_HOOKS.insert(0, matmul_hook)
+    pg, ps = ext['arr_getitem'], ext['arr_setitem']
+    def g(I, b, ix, node=None):
+        I.cur['prev_getitem'] = pg; return getitem(I, b, ix, node)
+    def s(I, b, ix, v, node=None):
+        I.cur['prev_setitem'] = ps; return setitem(I, b, ix, v, node)
+    ext['arr_getitem'] = g; ext['arr_setitem'] = s
+    np_ = ext['modules']['np']
+    pa, pmin, pmax = np_.any, np_.min, np_.max
+    def any_(I, a, axis=None, **kw):
+        I.cur['prev_any'] = pa; return np_any(I, a, axis=axis, **kw)
+    np_.any = any_
+    fmin, fmax = np_ext('min'), np_ext('max')
+    def min_(I, a, axis=None, **kw):
+        I.cur['prev_min'] = pmin; return fmin(I, a, axis=axis, **kw)
+    def max_(I, a, axis=None, **kw):
+        I.cur['prev_max'] = pmax; return fmax(I, a, axis=axis, **kw)
+    np_.min = min_; np_.max = max_
+    for k in ('scipy.spatial.ConvexHull', 'scipy.interpolate.interpnd._ndim_coords_from_arrays', 'scipy.interpolate.LinearNDInterpolator', 'scipy.interpolate.interp1d',
+              'sklearn.utils.validation.check_X_y', 'sklearn.utils.validation.check_array', 'sklearn.utils.validation.check_is_fitted'):
+        ext['names'].setdefault(k, ExtClass(k.split('.')[-1]))
+
+def u_directional_distance():
+    q = SB + '._directional_distance'
+    def body(I):
+        f, n, D = I.fresh('n_facets', IntS), I.fresh('n_points', IntS), I.fresh('D', IntS)       # D = hull dimensions + 1 (target first)
+        I.assume(And(f >= 1, n >= 1, D >= 1))
+        I.cur = dict(c19=True)
+        E = I.fresh_arr('equations', (f, D + 1)); P = I.fresh_arr('points', (n, D))
+        E0, P0 = I.A(E), I.A(P)
+        r = I.call_func(I.repo.get(q), [E, P], {})
+        R = I.A(r)
+        i, j = I.fresh('i', IntS), I.fresh('j', IntS); I.assume(And(0 <= i, i < n, 0 <= j, j < f))
+        I.ob('post[C19]:one-entry-per-point-and-facet', And(BoolVal(R.ndim == 2), tz(R.shape[0]) == n, tz(R.shape[1]) == f), kind='post')
+        dotp = SUMD(z3.Lambda([d_], P0.elem(i, d_) * E0.elem(j, d_)), D)
+        I.ob('post[C19]:entry-is-the-vertical-offset-of-the-point-from-the-facet-plane ((n.p + b) / n_target)', R.elem(i, j) == (dotp + E0.elem(j, D)) / E0.elem(j, IntVal(0)), kind='post')
+        I.ob('post[C19]:inputs-left-untouched', BoolVal(I.A(E) is E0 and I.A(P) is P0), kind='post')
+    return Unit('_directional_distance', body, functions=[q])
+
+def dd_contract():
+    def make_result(I, F):
+        E, P = I.A(F['equations']), I.A(F['points'])
+        I.cur['dd_args'] = (F['equations'], F['points'])
+        r = I.fresh_arr('offsets', (P.shape[0], E.shape[0]))
+        I.cur['DD'] = I.A(r)
+        return r
+    return FuncContract(make_result=make_result)
+
+def u_hull_distance():
+    q = DCH + '._directional_convex_hull_distance'
+    def body(I):
+        f, n, D = I.fresh('n_facets', IntS), I.fresh('n_points', IntS), I.fresh('D', IntS)
+        I.assume(And(f >= 1, n >= 1, D >= 1))
+        I.cur = dict(c19=True)
+        cls = I.repo.get(DCH)
+        tol = I.fresh('tolerance', RealS); I.assume(tol >= 0)
+        me = I.instantiate(cls, [], dict(low_dim_idx=[0], tolerance=tol))
+        E = I.fresh_arr('equations', (f, D + 1)); P = I.fresh_arr('points', (n, D))
+        I.O(me).attrs['_directional_equations_'] = E
+        P0 = I.A(P)
+        r = I.call_func(I.find_method(cls, '_directional_convex_hull_distance'), [me, P], {})
+        R = I.A(r); DD = I.cur.get('DD')
+        I.ob('post[C19]:offsets-computed-once-from-the-stored-lower-facet-equations-and-the-points', BoolVal(DD is not None and I.cur['dd_args'][0].id == E.id and I.cur['dd_args'][1].id == P.id), kind='post')
+        if DD is None: return
+        i, j = I.fresh('i', IntS), I.fresh('j', IntS); I.assume(And(0 <= i, i < n, 0 <= j, j < f))
+        a_, b_ = Int('a!fin'), Int('b!fin')
+        I.assume(And(INF > 0, tol < INF, ForAll([a_, b_], And(DD.elem(a_, b_) < INF, DD.elem(a_, b_) > -INF), patterns=[DD.elem(a_, b_)])))      # finite data: every offset is a real number
+        below = Exists([j_], And(0 <= j_, j_ < f, DD.elem(i, j_) < -tol))
+        I.ob('post[C19]:one-distance-per-point', And(BoolVal(R.ndim == 1), tz(R.shape[0]) == n), kind='post')
+        I.ob('post[C19]:on-or-above-the-surface:distance-is-at-most-every-facet-offset', Implies(Not(below), R.elem(i) <= DD.elem(i, j)), kind='post')
+        I.ob('post[C19]:on-or-above-the-surface:distance-is-attained-by-a-facet (the minimum: vertical offset from the upper envelope of the facet planes)',
+             Implies(Not(below), Exists([j_], And(0 <= j_, j_ < f, R.elem(i) == DD.elem(i, j_)))), kind='post')
+        I.ob('post[C19]:on-or-above-the-surface:distance-is-not-below-minus-the-tolerance', Implies(Not(below), R.elem(i) >= -tol), kind='post')
+        I.ob('post[C19]:below-the-surface:distance-is-at-least-every-non-positive-facet-offset', Implies(And(below, DD.elem(i, j) <= 0), R.elem(i) >= DD.elem(i, j)), kind='post')
+        I.ob('post[C19]:below-the-surface:distance-is-attained-by-a-facet-with-non-positive-offset (the closest plane from below)',
+             Implies(below, Exists([j_], And(0 <= j_, j_ < f, DD.elem(i, j_) <= 0, R.elem(i) == DD.elem(i, j_)))), kind='post')
+        I.ob('post[C19]:below-the-surface:distance-is-not-positive', Implies(below, R.elem(i) <= 0), kind='post')
+        I.ob('post[C19]:points-left-untouched', BoolVal(I.A(P) is P0), kind='post')
+    return Unit('DirectionalConvexHull._directional_convex_hull_distance', body, funcs={SB + '._directional_distance': dd_contract()}, functions=[q])
+
+UNITS = [lambda: u_directional_distance(), lambda: u_hull_distance()]
 RT = True
-UNITS = []
-TRUSTED = ["independent numpy oracle (dense SVD/eigh on an independently computed projection residual; brute-force lower envelope; mixture recomputed from the fitted state)"]
+EVIDENCE_LEVEL = 'exploration'      # most clauses of C19 depend on Qhull: the property as a whole stays at the bounded level
+TRUSTED = ["SUMD: finite sum over the coordinates (uninterpreted; matrix products entry by entry); floats as reals; -inf is below every real",
+           "scipy.spatial.ConvexHull (Qhull) and LinearNDInterpolator are external: that the stored equations are the lower facets of the hull of the training data, the selected vertices "
+           "and the high-dimensional residuals are NOT derived (bounded runtime checks against a brute-force lower envelope)",
+           "np.min/np.max(axis=1): row extremum with a witness column; boolean-mask selection/store: the increasing enumeration of the true positions (one map per mask)"]
